@@ -193,6 +193,16 @@ Theorem user_code_runs_only_after_decode d e :
 Proof. exact (conj (endpoint_after_decode d e) (encode_after_endpoint d e)). Qed.
 Print Assumptions user_code_runs_only_after_decode.
 
+(* ---- streaming methods: the request decoder (which builds and validates the payload
+   from the metadata) runs exactly when the method has one - whether or not a request
+   message accompanies the call - and user code runs only if there is nothing to
+   decode or decoding succeeded *)
+Theorem streaming_user_code_runs_only_after_decode has_decoder decode_ok :
+  (In SDecode (stream_trace has_decoder decode_ok) <-> has_decoder = true) /\
+  (In SEndpoint (stream_trace has_decoder decode_ok) <-> has_decoder = false \/ decode_ok = true).
+Proof. exact (stream_trace_spec has_decoder decode_ok). Qed.
+Print Assumptions streaming_user_code_runs_only_after_decode.
+
 (* ---- proto_roundtrip: a value of the modelled fragment (primitives, optional
    primitives, arrays, maps, nested messages, wrapped nested collections) whose Int /
    UInt leaves fit 32 bits is converted to a message value by the client-side
